@@ -125,7 +125,7 @@ def twin_cells(tier, seed):
                     if b["kind"] != "own":
                         b["cls"] = "basis"
                 R = lambda m: LY.rename(spec, m)
-                for entry, tg, flags in (("ce", ["e0.p", "e1.p"], {}), ("ce", ["e0.f", "e1.f"], {"separate_measurement": True}), ("ce", ["e1.f"], {"destructive": False}),
+                for entry, tg, flags in (("ce", ["e0.f", "e1.p"], {}), ("ce", ["e1.p", "e0.f"], {}), ("ce", ["e0.p", "e1.p"], {}), ("ce", ["e0.f", "e1.f"], {"separate_measurement": True}), ("ce", ["e1.f"], {"destructive": False}),
                                          ("ce", ["e0.f", "e1.f", "c0"], {}), ("self", ["e0.f"], {}), ("env", ["e1.f"], {})):
                     cells.append({"world": spec, "layout": tag, "levels": lv, "cls": "equal-values", "contraction": True, "seed": seed, "variant": f"label{lab}",
                                   "flags": ",".join(flags) or "default", "reordered": True,
